@@ -10,7 +10,9 @@ Lemma rules_facts :
   lint_file_skip_tests = ["hardcoded_excluded"; "ignored"] /\ lint_file_runs_all_rules = true /\ execute_rules_in_order = true
   /\ base_finalize_result = [] /\ finalize_rules_over_registry = true
   /\ (parent_rule_selection = SelOverridesFinalize \/ parent_rule_selection = SelAll)
-  /\ check_reraises = ["ValueError"] /\ check_swallows = ["Exception"].
+  /\ check_reraises = ["ValueError"] /\ check_swallows = ["Exception"]
+  /\ forallb (fun c : string * bool => snd c) crossfile_checks_silent = true
+  /\ map fst crossfile_checks_silent = ["DRYRule"; "StringlyTypedRule"].
 Proof. repeat split; try reflexivity. destruct parent_rule_selection; auto. Qed.
 
 Section RulesProofs.
@@ -31,8 +33,11 @@ Section RulesProofs.
   Local Notation fresh := (fresh file rstate).
   Local Notation finalize_all := (finalize_all file rstate).
   Local Notation fin_inst := (fin_inst file rstate).
-  Local Notation lint_file := (lint_file file rstate excluded ignored).
-  Local Notation lint_loop := (lint_loop file rstate excluded ignored).
+  Local Notation lint_file := (lint_file file rstate excluded ignored rules).
+  Local Notation lint_loop := (lint_loop file rstate excluded ignored rules).
+  Local Notation registry := (registry file rstate).
+  Local Notation ensure := (ensure file rstate rules).
+  Local Notation list_all := (list_all file rstate).
   Local Notation r_perfile := (r_perfile file rstate excluded ignored rules).
   Local Notation r_report := (r_report file rstate excluded ignored rules).
   Local Notation rseq_run := (rseq_run file rstate excluded ignored rules).
@@ -44,6 +49,11 @@ Section RulesProofs.
 
   (* what check() reports (or raises) for a file is the same whatever the instance has seen before *)
   Definition report_local (r : rule) : Prop := forall s f, fst (r_check _ _ r s f) = fst (r_check _ _ r (r_init _ _ r) f).
+
+  (* a rule whose check() reports nothing on any path (it only stores: every class that overrides finalize, by the
+     generated census crossfile_checks_silent) is local whatever it stores *)
+  Lemma silent_rule_local (r : rule) : (forall s f, fst (r_check _ _ r s f) = COk []) -> report_local r.
+  Proof. intros H s f. now rewrite !H. Qed.
 
   Lemma map_fst_step s f (is : list inst) : map fst (map (step_inst s f) is) = map fst is.
   Proof.
@@ -77,47 +87,101 @@ Section RulesProofs.
 
   Hypothesis rules_local : Forall report_local rules.
 
-  Lemma lint_file_spec (is : list inst) f :
-    map fst is = rules ->
-    lint_file is f = match r_perfile f with
-                     | None => None
-                     | Some vs => Some (vs, if vis f then map (step_inst all f) is else is)
-                     end.
+  (* a registry, discovered or not, holds (will hold) one instance per rule class, in order *)
+  Definition reg_ok (o : registry) : Prop := map fst (ensure o) = rules.
+
+  Lemma reg_ok_none : reg_ok None.
+  Proof. exact (map_fst_fresh rules). Qed.
+
+  Definition step_reg (o : registry) (f : file) : registry :=
+    if vis f then Some (map (step_inst all f) (ensure o)) else o.
+
+  Lemma step_reg_ok o f : reg_ok o -> reg_ok (step_reg o f).
   Proof.
-    intros M. unfold OrchParRules.lint_file, OrchParRules.r_perfile, OrchParRules.visible.
+    unfold step_reg, reg_ok. intros M. destruct (vis f); [|exact M]. cbn [OrchParRules.ensure]. now rewrite map_fst_step.
+  Qed.
+
+  Lemma lint_file_spec (o : registry) f :
+    reg_ok o ->
+    lint_file o f = match r_perfile f with
+                    | None => None
+                    | Some vs => Some (vs, step_reg o f)
+                    end.
+  Proof.
+    intros M. unfold OrchParRules.lint_file, OrchParRules.r_perfile, step_reg, OrchParRules.visible.
     destruct (excluded f); [reflexivity|]. destruct (ignored f); [reflexivity|]. cbn [orb negb].
-    rewrite exec_rules_spec by (rewrite M; exact rules_local). now rewrite M.
+    rewrite exec_rules_spec by (rewrite M; exact rules_local). rewrite M.
+    now destruct (rules_out all rules f).
   Qed.
 
-  Lemma lint_loop_spec files : forall is : list inst,
-    map fst is = rules ->
-    lint_loop is files = match mapM r_perfile files with
-                         | None => None
-                         | Some vss => Some (List.concat vss, feed all vis is files)
-                         end.
+  Definition feed_reg (o : registry) (files : list file) : registry := fold_left step_reg files o.
+
+  Lemma lint_loop_spec files : forall o : registry,
+    reg_ok o ->
+    lint_loop o files = match mapM r_perfile files with
+                        | None => None
+                        | Some vss => Some (List.concat vss, feed_reg o files)
+                        end.
   Proof.
-    induction files as [|f fs IH]; intros is M; [reflexivity|].
-    cbn [OrchParRules.lint_loop mapM]. rewrite (lint_file_spec is f M).
+    induction files as [|f fs IH]; intros o M; [reflexivity|].
+    cbn [OrchParRules.lint_loop mapM]. rewrite (lint_file_spec o f M).
     destruct (r_perfile f) as [vs|]; [|reflexivity].
-    cbn beta iota. unfold OrchParRules.feed. cbn [fold_left]. fold (OrchParRules.feed file rstate).
-    destruct (vis f).
-    - rewrite (IH (map (step_inst all f) is)) by now rewrite map_fst_step.
-      now destruct (mapM r_perfile fs).
-    - rewrite (IH is M). now destruct (mapM r_perfile fs).
+    rewrite (IH _ (step_reg_ok o f M)). unfold feed_reg. cbn [fold_left].
+    now destruct (mapM r_perfile fs).
   Qed.
 
-  (* 1. the sequential run of stateful rule instances IS the table-level sequential run *)
+  Lemma feed_reg_some files : forall is : list inst, feed_reg (Some is) files = Some (feed all vis is files).
+  Proof.
+    induction files as [|f fs IH]; intros is; [reflexivity|].
+    unfold feed_reg, OrchParRules.feed. cbn [fold_left]. unfold step_reg at 2. cbn [OrchParRules.ensure].
+    destruct (vis f); apply IH.
+  Qed.
+
+  (* no file got as far as the rules: the registry is still empty, and instances fed those files are new instances *)
+  Lemma feed_reg_none files :
+    feed_reg None files = if existsb vis files then Some (feed all vis (fresh rules) files) else None.
+  Proof.
+    induction files as [|f fs IH]; [reflexivity|].
+    unfold feed_reg, OrchParRules.feed. cbn [fold_left existsb]. unfold step_reg at 2. cbn [OrchParRules.ensure].
+    destruct (vis f); cbn [orb]; [apply feed_reg_some|exact IH].
+  Qed.
+
+  Lemma feed_invisible s files : forall is : list inst, existsb vis files = false -> feed s vis is files = is.
+  Proof.
+    induction files as [|f fs IH]; intros is H; [reflexivity|]. cbn [existsb] in H.
+    apply orb_false_elim in H as [V H]. unfold OrchParRules.feed. cbn [fold_left]. rewrite V. apply IH, H.
+  Qed.
+
+  (* a new registry reports nothing from finalize *)
+  Hypothesis fresh_finalize_nil : forall r g, In r rules -> r_finalize _ _ r = Some g -> g (r_init _ _ r) = [].
+
+  Lemma finalize_fresh_nil : finalize_all (fresh rules) = [].
+  Proof.
+    unfold OrchParRules.finalize_all, OrchParRules.fresh. rewrite map_map.
+    assert (H : forall rs, (forall r, In r rs -> In r rules) ->
+                           List.concat (map (fun r : rule => fin_inst (r, r_init file rstate r)) rs) = []).
+    { induction rs as [|r rest IH]; intros Sub; [reflexivity|]. cbn [map List.concat].
+      rewrite IH by (intros x Hx; apply Sub; now right).
+      unfold OrchParRules.fin_inst. cbn [fst snd]. destruct (r_finalize file rstate r) as [g|] eqn:G.
+      - now rewrite (fresh_finalize_nil r g (Sub r (or_introl eq_refl)) G).
+      - destruct rules_facts as (_ & _ & _ & -> & _). reflexivity. }
+    apply H. auto.
+  Qed.
+
+  (* 1. the sequential run of stateful rule instances (lazy discovery included) IS the table-level sequential run *)
   Theorem rseq_refines files :
     rseq_run files = seq_run file file r_perfile (fun f => f) r_report files.
   Proof.
-    unfold OrchParRules.rseq_run, seq_run. rewrite (lint_loop_spec files (fresh rules) (map_fst_fresh rules)).
-    destruct (mapM r_perfile files); [|reflexivity]. now rewrite map_id.
+    unfold OrchParRules.rseq_run, seq_run. rewrite (lint_loop_spec files None reg_ok_none).
+    destruct (mapM r_perfile files); [|reflexivity]. rewrite map_id. do 2 f_equal.
+    unfold OrchParRules.r_report. rewrite feed_reg_none. destruct (existsb vis files) eqn:E; [reflexivity|].
+    cbn [OrchParRules.list_all]. rewrite (feed_invisible all files (fresh rules) E), finalize_fresh_nil. reflexivity.
   Qed.
 
   Lemma rworker_is_worker q f : rworker q f = worker file r_perfile q f.
   Proof.
     unfold OrchParRules.rworker, worker. f_equal.
-    rewrite (lint_file_spec (fresh rules) f (map_fst_fresh rules)). now destruct (r_perfile f).
+    rewrite (lint_file_spec None f reg_ok_none). now destruct (r_perfile f).
   Qed.
 
   Lemma mapM_ext {A B} (g h : A -> option B) l : (forall x, g x = h x) -> mapM g l = mapM h l.
@@ -251,22 +315,8 @@ Section RulesProofs.
     now rewrite P.
   Qed.
 
-  (* a new registry reports nothing from finalize *)
-  Hypothesis fresh_finalize_nil : forall r g, In r rules -> r_finalize _ _ r = Some g -> g (r_init _ _ r) = [].
-
   Lemma r_report_nil : r_report [] = [].
-  Proof.
-    unfold OrchParRules.r_report, OrchParRules.feed. cbn [fold_left].
-    unfold OrchParRules.finalize_all, OrchParRules.fresh. rewrite map_map.
-    assert (H : forall rs, (forall r, In r rs -> In r rules) ->
-                           List.concat (map (fun r : rule => fin_inst (r, r_init file rstate r)) rs) = []).
-    { induction rs as [|r rest IH]; intros Sub; [reflexivity|]. cbn [map List.concat].
-      rewrite IH by (intros x Hx; apply Sub; now right).
-      unfold OrchParRules.fin_inst. cbn [fst snd]. destruct (r_finalize file rstate r) as [g|] eqn:G.
-      - now rewrite (fresh_finalize_nil r g (Sub r (or_introl eq_refl)) G).
-      - destruct rules_facts as (_ & _ & _ & -> & _). reflexivity. }
-    apply H. auto.
-  Qed.
+  Proof. unfold OrchParRules.r_report, OrchParRules.feed. cbn [fold_left]. exact finalize_fresh_nil. Qed.
 
   (* 3. MAIN at the level of rule instances: for EVERY registry of stateful rules whose reports are local, every quirk
         vector, worker count, core count, completion order and file list, lint_files_parallel on a new Orchestrator
